@@ -94,6 +94,8 @@ class CFG:
             loops.pop()
             for o in body_out:
                 self._edge(o, h)
+            if isinstance(st, ast.While) and isinstance(st.test, ast.Constant) and st.test.value is True:
+                return brk  # `while True:` is left only through break (return/raise have their own edges)
             out = self._block(st.orelse, {h}, loops, handlers) if st.orelse else {h}
             return out | brk
         if isinstance(st, ast.Try):
